@@ -201,6 +201,21 @@ func checkC02(w *Worker) {
 		}
 		verify(x, 0, ri, book, absLog{d})
 	})
+	// a log whose report crosses the 4096-byte output buffer many times (and whose input crosses the
+	// scanner's buffer): 120 days x 3 entries with exotic and plain names
+	w.Explore("large-log", ExploreOpts{ShardDepth: 2}, func(x *Exec) {
+		ri := x.Choose(nRend, "input:renderer")
+		bi := x.Choose(len(c02Books), "input:book")
+		var lg absLog
+		for d := 0; d < 120; d++ {
+			date := fmt.Sprintf("2021/%02d/%02d", 1+d/28, 1+d%28)
+			if ri == len(regRenderers) {
+				date = dates[0] // summary: the same date 120 times
+			}
+			lg = append(lg, absDay{Date: date, Entries: []absIng{{"r1", float64(d%7) - 2}, {c13Names[d%len(c13Names)] + " x", 0.5}, {"r2", 1}, {"r1", 0.25}}})
+		}
+		verify(x, bi, ri, c02Books[bi], lg)
+	})
 	// merge shapes: longer days over a small food alphabet; the i-th entry has quantity 2^i, so the
 	// merged quantity of a food identifies exactly which entries were folded into it
 	maxLen := 6
